@@ -117,6 +117,9 @@ impl SemanticState {
                     )
                 })?;
 
+                self.type_registry
+                    .ensure_address_fits(address, &format!("extern value `{name}`"))?;
+
                 Ok(ExternValue {
                     visibility: Visibility::from(ev.visibility),
                     name: name.as_str().to_owned(),
